@@ -30,6 +30,7 @@ import (
 	"google.golang.org/grpc"
 	"google.golang.org/grpc/test/bufconn"
 
+	"github.com/MinterTeam/mhub2/minter-connector/config"
 	mctx "github.com/MinterTeam/mhub2/minter-connector/context"
 	"github.com/MinterTeam/mhub2/minter-connector/cosmos"
 	"github.com/MinterTeam/mhub2/minter-connector/minter"
@@ -56,21 +57,22 @@ type Conn struct {
 
 // MW is the combined world.
 type MW struct {
-	W     *world.World
-	C     *mnt.Chain
-	http  *httptest.Server
-	gsrv  *grpc.Server
-	gconn *grpc.ClientConn
-	mu    sync.Mutex
-	Conns map[string]*Conn
-	Ref   []J // reference list of bridge events of the Minter chain, in chain order, in the model's event format
-	dir   string
-	enc   *json.Encoder
-	subs  []*mnt.Submission // submissions seen during the running connector call
-	outs  []interface{}     // model form of the messages the running connector call committed
-	crashMode string        // "", "after", "before": the running call is a pass that gets killed in CommitTx
-	crashSnap *statusSnap   // the status file at the moment of the kill
-	Infra string            // non-empty: the environment (not the code under test) failed
+	W         *world.World
+	C         *mnt.Chain
+	http      *httptest.Server
+	gsrv      *grpc.Server
+	gconn     *grpc.ClientConn
+	mu        sync.Mutex
+	Conns     map[string]*Conn
+	Ref       []J // reference list of bridge events of the Minter chain, in chain order, in the model's event format
+	dir       string
+	enc       *json.Encoder
+	subs      []*mnt.Submission    // submissions seen during the running connector call
+	outs      []interface{}        // model form of the messages the running connector call committed
+	reinit    *config.MinterConfig // the start configuration of the connector that is being set up anew (no status file yet)
+	crashMode string               // "", "after", "before": the running call is a pass that gets killed in CommitTx
+	crashSnap *statusSnap          // the status file at the moment of the kill
+	Infra     string               // non-empty: the environment (not the code under test) failed
 }
 
 func mx(addr string) string { return "Mx" + strings.ToLower(strings.TrimPrefix(addr, "0x")) }
@@ -185,6 +187,9 @@ func orchOf(cfg world.Cfg, val string) string {
 // ------------------------------------------------------------------------------------------------ projection
 func (mw *MW) cursor(c *Conn) J {
 	st := connmain.Cfg().Minter
+	if mw.reinit != nil {
+		st = *mw.reinit
+	}
 	disk := J{"blk": st.StartBlock, "ev": st.StartEventNonce, "bat": st.StartBatchNonce, "vs": st.StartValsetNonce} // no file yet: the configured start
 	if bz, err := os.ReadFile(c.StatusFile); err == nil {
 		var d map[string]uint64
@@ -478,13 +483,13 @@ func (mw *MW) Exec(i int, a world.Act) {
 			o.Ev = ev
 		}
 		mw.stepLine(i, a, o)
-	case "ConnScan", "ConnBatches", "ConnValsets", "ConnRestart", "ConnCrashScan":
+	case "ConnScan", "ConnBatches", "ConnValsets", "ConnRestart", "ConnCrashScan", "ConnReinit":
 		c := mw.Conns[a.S("by")]
 		if c == nil {
 			mw.Infra = "no connector for " + a.S("by")
 			return
 		}
-		if !w.InBlk && a.S("k") != "ConnRestart" {
+		if !w.InBlk && a.S("k") != "ConnRestart" && a.S("k") != "ConnReinit" {
 			w.BumpStep()
 			mw.stepLine(i, a, J{"out": "err", "log": "not in block"})
 			return
@@ -492,6 +497,30 @@ func (mw *MW) Exec(i int, a world.Act) {
 		w.BumpStep()
 		// marker line: the state the connector sees when it is called
 		mw.stepLine(i, world.Act{"k": "ConnCall", "by": a.S("by"), "fn": a.S("k"), "i": i}, world.Outcome{Out: "ok"})
+		if a.S("k") == "ConnReinit" {
+			// the operator sets the connector up anew: no status file, the configuration names a start block and the
+			// nonces that go with it (taken from the reference numbering of the chain up to that block)
+			b := a.U("at")
+			if b > uint64(len(mw.C.Blocks)) {
+				b = uint64(len(mw.C.Blocks))
+			}
+			st := connmain.Cfg().Minter
+			st.StartBlock, st.StartEventNonce, st.StartBatchNonce, st.StartValsetNonce = b, 1, 1, 0
+			for _, e := range mw.Ref {
+				if toU(e["eh"]) <= b {
+					st.StartEventNonce++
+					switch e["t"] {
+					case "Exec":
+						st.StartBatchNonce++
+					case "SSExec":
+						st.StartValsetNonce = toU(e["ssn"])
+					}
+				}
+			}
+			os.Remove(c.StatusFile)
+			mw.reinit = &st
+			c.Ctx.LoadStatus(c.StatusFile, st)
+		}
 		cur0 := mw.cursor(c)
 		mw.subs = nil
 		mw.outs = []interface{}{}
@@ -524,6 +553,9 @@ func (mw *MW) Exec(i int, a world.Act) {
 					}
 				}
 				c.Ctx.LoadStatus(c.StatusFile, connmain.Cfg().Minter) // (the process is down until a ConnRestart)
+			case "ConnReinit":
+				ack = cosmos.GetLastMinterNonce(c.Ctx.OrcAddress.String(), c.Ctx.CosmosConn)
+				c.Ctx = minter.GetLatestMinterBlockAndNonce(c.Ctx, ack)
 			case "ConnRestart":
 				// the process starts again: the cursor comes from the status file, the hub tells the last event it saw from us
 				c.Ctx.LoadStatus(c.StatusFile, connmain.Cfg().Minter)
@@ -532,6 +564,7 @@ func (mw *MW) Exec(i int, a world.Act) {
 			}
 		})
 		mw.crashMode = ""
+		mw.reinit = nil
 		res := J{"out": "ok", "cur0": cur0, "cur1": mw.cursor(c), "head": uint64(len(mw.C.Blocks)), "ack": ack}
 		if timedOut {
 			res["out"] = "timeout"
@@ -560,6 +593,21 @@ func (mw *MW) Exec(i int, a world.Act) {
 		line := J{"k": "step", "i": i, "act": w.Canon(a), "res": o, "post": mw.Project()}
 		mw.emit(line)
 	}
+}
+
+func toU(v interface{}) uint64 {
+	switch x := v.(type) {
+	case uint64:
+		return x
+	case int:
+		return uint64(x)
+	case int64:
+		return uint64(x)
+	case float64:
+		return uint64(x)
+	}
+	n, _ := strconv.ParseUint(fmt.Sprint(v), 10, 64)
+	return n
 }
 
 // helpers used by the driver binary
